@@ -17,6 +17,24 @@ CLAIMED = {
               "Print Assumptions; py2coq translator; ExtrOcamlBasic extraction + OCaml double instance; real-number model (round-off "
               "not proved; bridged by the 1e-12 correspondence); class dispatch Zint/Uint written by the generator and tied by correspondence."),
         ref="§3-C07"),
+    "C08": dict(
+        technique="Coq/Coquelicot derivative theorems about kernels regenerated from species.py + extracted-model/implementation differential check",
+        text=("proof (full, at fixed dE): for each of the four classes, T |-> ln(Ztr(T) Zint(T,dE)) of the regenerated partition-function "
+              "kernels is proved differentiable with derivative U(T,dE)/(k T^2) where U is the regenerated internal_energy kernel "
+              "(monatomic by induction over an arbitrary level list with the cutoff fixed; vibrational/rotational factors by a "
+              "log-derivative calculus), plus the same-states lemma (U and Z range over the same bound levels)."),
+        note=("Trusted: Coq kernel; Coquelicot; Reals axioms as printed; translator; extraction + double instance; real-number model. "
+              "Hypotheses: T>0, M>0, k_B>0, N_A>0, h!=0; monatomic Zint>0 (proved from J>=0 and one bound level); molecular constants >0."),
+        ref="§3-C08"),
+    "C15": dict(
+        technique="Coq theorems over R about the kernel regenerated from functions_radiation.py + differential check incl. real LTE mixtures",
+        text=("proof (full): the regenerated total_emission_coefficient kernel equals (hc/4pi) * sum over heavy species and lines of "
+              "n gA exp(-E/kT)/(lambda Zint(T,0)) for all inputs, with the last (electron) entry contributing nothing; additivity, "
+              "no-lines-zero and permutation invariance are theorems. The composition is a parameter of the model; that the implementation "
+              "feeds it the equilibrium densities is checked on real LTE objects."),
+        note=("Trusted: Coq kernel; Reals axioms as printed; translator; extraction + double instance; real-number model; "
+              "composition passed as parameter (tie to calculate_composition by test on LTE objects)."),
+        ref="§3-C15"),
 }
 
 NOT_YET = {}
